@@ -90,7 +90,7 @@ def run_perms(case):
 
     sim = Sim(case['seed'], case.get('profile', 'zero'), slow_node='N1')
     try:
-        world = World(sim, 2)
+        world = World(sim, 3)
         srv = world[1].device
         built = gattdb.build(srv, case['db'])
         if case['eatt']:
@@ -175,6 +175,22 @@ def run_perms(case):
                         verdicts.add((op, 'granted', link))
                         if link != 'plain':
                             sim.probe('granted_on_secured_link')
+                # ---- the same read from an unpaired second client while the first client's read is being served
+                p2 = state.get('plain2')
+                plain_why = _why(perms, False, False, write=False)
+                if p2 is not None and link != 'plain' and not rwhy and plain_why and t['kind'] == 'value':
+                    n1, n2 = len(b['rx']), len(p2['rx'])
+                    b['send'](struct.pack('<BH', 0x0A, h))
+                    p2['send'](struct.pack('<BH', 0x0A, h))
+                    sim.loop.drive(lambda: len(b['rx']) > n1 and len(p2['rx']) > n2, vt_budget=31.0, step_budget=200_000)
+                    sim.loop.settle()
+                    sim.probe('overlapping_reads_from_two_clients')
+                    for p in p2['rx'][n2:]:
+                        if p[:1] == b'\x0b' and t['token'] in p:
+                            sim.violation_once(f'leak:overlap:{plain_why[0]}', f'disclosed:read:to-unpaired-client-during-authorised-read:{plain_why[0]}',
+                                               f'an unpaired client read a value with permissions {perms:#04x} while a {link} client was reading it')
+                    if not any(p[:1] == b'\x0b' for p in b['rx'][n1:]):
+                        sim.violation_once('overlap-refused', f'refused:read:authorised-client-during-unpaired-read', f'{[x.hex() for x in b["rx"][n1:]]}')
                 # ---- range / list reads: must not disclose
                 others = [x['attr'].handle for x in order.sample(ts, min(len(ts), 2))]
                 for op, pdu in (
@@ -235,6 +251,11 @@ def run_perms(case):
                 raise HarnessError(f'passkey model not used: {log}')
 
         connect()
+        # a second client that never pairs: its requests overlap with those of the first one
+        c2, _c2s = world.connect_le(2, 1)
+        plain2 = {'name': 'fixed', 'send': lambda pdu: world[2].host.send_l2cap_pdu(c2.handle, ATT_CID, pdu), 'rx': []}
+        world[2].device.l2cap_channel_manager.register_fixed_channel(ATT_CID, lambda h, pdu: plain2['rx'].append(bytes(pdu)))
+        state['plain2'] = plain2
         link = 'plain'
         shape = []
         for ph in case['phases']:
